@@ -234,6 +234,7 @@ def run(ctx):
     # scalars in assignment position at every depth (theorem C04_scalars_survive_text_core)
     corefrag.run(ctx, ctx.scale(150, 3000), ctx.build_status["drivers"].get("syn", False))
     corefrag.run3(ctx, ctx.scale(150, 3000), ctx.build_status["drivers"].get("syn", False))
+    corefrag.run4(ctx, ctx.scale(150, 3000), ctx.build_status["drivers"].get("syn", False))
     have_model = ctx.build_status["drivers"].get("syn", False)
     ctx.extra["rule"] = ("strings: exhaustive length<=2 (thorough: <=3) over a %d-symbol alphabet of lexer-significant "
                          "classes and multi-character atoms + random strings up to 60 atoms; ints up to 2^200 and "
